@@ -75,7 +75,7 @@ Theorem T1_guarded toks fuel :
   Guarded toks (p_info (p_ignore1 toks (la_global toks))).
 Proof.
   pose proof sync_full_ok as Hs.
-  repeat split; apply Fwd_Guarded; fwd_solve Hs. apply Fwd_gerror; exact Hs.
+  repeat split; apply Fwd_Guarded; fwd_solve Hs.
 Qed.
 Print Assumptions T1_guarded.
 
@@ -138,6 +138,27 @@ Theorem T5_sync toks prog :
 Proof. exact (parse_sync toks prog). Qed.
 Print Assumptions T5_sync.
 
+(* the same, per declaration: declaration i occupies the tokens [off, off + i_e); it is never empty;
+   the next declaration starts exactly where it ends and the last one ends where the comments in
+   front of Eof start; the first starts at 0; a Type/Procedure declaration consists of comments, its
+   keyword, and tokens that are not proc/type/Eof; an Error declaration contains no proc/type/Eof
+   token and ends in front of (comments +) one *)
+Theorem T5_per_declaration toks prog i g off :
+  EofLast toks -> parse toks = Done prog -> nth_error (pg_decls prog) i = Some (g, off) ->
+  off + i_e (gdecl_info g) <= i_e (pg_info prog) /\ 0 < i_e (gdecl_info g) /\ i_s (gdecl_info g) = 0 /\
+  decl_span toks g off (off + i_e (gdecl_info g)) /\
+  match nth_error (pg_decls prog) (S i) with
+  | Some (_, off') => off' = off + i_e (gdecl_info g)
+  | None => off + i_e (gdecl_info g) = i_e (pg_info prog)
+  end /\
+  (i = 0 -> off = 0).
+Proof.
+  intros HE H Hn. apply parse_sync in H as (Hsp & _); [|exact HE].
+  destruct (Spans_nth toks _ _ _ _ _ _ Hsp Hn) as (A & B & C & D & E & F & G).
+  repeat split; assumption.
+Qed.
+Print Assumptions T5_per_declaration.
+
 Theorem T5_heads toks prog :
   EofLast toks -> parse toks = Done prog ->
   decl_heads toks (pg_decls prog) = kw_in toks 0 (length toks).
@@ -149,10 +170,14 @@ Print Assumptions T5_heads.
 Theorem T6_locality toks1 toks2 fuel j s :
   (forall i, i <= j -> nth_error toks1 i = nth_error toks2 i) ->
   (exists t, nth_error toks1 j = Some t /\ sync_full (tk t) = true) ->
-  pos s <= j -> (sig_at toks1 (pos s) < j \/ pos s = j) ->
-  forall s' g, p_gdecl toks1 fuel s = POk s' g -> sig_at toks1 (pos s) < j ->
-  p_gdecl toks2 fuel s = POk s' g.
-Proof. exact (gdecl_local toks1 toks2 fuel j s). Qed.
+  sig_at toks1 (pos s) < j ->
+  p_gdecl toks1 fuel s = p_gdecl toks2 fuel s /\
+  (forall s' g, p_gdecl toks1 fuel s = POk s' g -> pos s' <= j).
+Proof.
+  intros Hag Hj Hs. split.
+  - exact (gdecl_local toks1 toks2 j Hag Hj fuel s Hs).
+  - intros s' g. exact (gdecl_stops toks1 j Hj fuel s s' g Hs).
+Qed.
 Print Assumptions T6_locality.
 
 (* ------------------------------------------------------------------------------------------ *)
